@@ -71,7 +71,7 @@ def _renamed_overlay(source: Source, private: bool = False) -> Dict[str, str]:
 def _run_one(args: Tuple[str, Variant, List[str]]) -> Dict[str, Any]:
     prop, variant, base_idents = args
     source = Source()
-    if variant.name in (RENAME_TWIN, PRIVATE_TWIN):
+    if variant.name in (RENAME_TWIN, PRIVATE_TWIN) or variant.name.startswith(AUTO_TWIN_PREFIX):
         return _run_rename_twin(prop, source, base_idents, variant.name)
     overlay = _apply(source, variant)
     if overlay is None:
@@ -100,12 +100,17 @@ def _run_one(args: Tuple[str, Variant, List[str]]) -> Dict[str, Any]:
 
 RENAME_TWIN = "twin: every local variable of the package renamed and every file re-printed"
 PRIVATE_TWIN = "twin: every private method and field of the package renamed and every file re-printed"
+AUTO_TWIN_PREFIX = "twin (whole package): "
 
 
 def _run_rename_twin(prop: str, source: Source, base_idents: List[str], name: str = RENAME_TWIN) -> Dict[str, Any]:
     module = importlib.import_module(f"sa.rules.{prop.lower()}")
     try:
-        prog = Program(source.with_overlay(_renamed_overlay(source, private=name == PRIVATE_TWIN)))
+        if name.startswith(AUTO_TWIN_PREFIX):
+            overlay = _rename_tool().transformed_overlay(source, name[len(AUTO_TWIN_PREFIX):])
+        else:
+            overlay = _renamed_overlay(source, private=name == PRIVATE_TWIN)
+        prog = Program(source.with_overlay(overlay))
         ctx = Context(prog, "quick", prop)
         module.run(ctx)
         ctx.check_floors()
@@ -138,6 +143,8 @@ def run(prop: str, seed: int = 0, base_idents: Optional[List[str]] = None) -> Di
         base_idents = [f.ident() for f in ctx.findings()]
     variants.append(Variant(RENAME_TWIN, "twin", []))
     variants.append(Variant(PRIVATE_TWIN, "twin", []))
+    for name in ("swap", "early", "rettemp", "logging", "condtemp", "nest", "continue"):
+        variants.append(Variant(AUTO_TWIN_PREFIX + name, "twin", []))
     jobs = [(prop, variant, base_idents) for variant in variants]
     results: List[Dict[str, Any]] = []
     if jobs:
